@@ -417,6 +417,10 @@ def model(A, fn, frame, b, t, st, name):
                 if r[0] == "range" and r[1] != "RangeFull":
                     lo, hi = r[2], r[3]
                     A.require(st, fn, b, "vec:drain", "drain range within bounds", [(hi if hi is not None else ln).sub(ln), (lo.sub(hi if hi is not None else ln)) if lo is not None else Lin.const(0)])
+                elif r[0] == "range":
+                    A.require(st, fn, b, "vec:drain", "drain(..) of the full range: cannot fail", [])
+                else:
+                    A.require(st, fn, b, "vec:drain", "drain range within bounds", [None])
             ns = A.newsym(st, "len", 0, LEN_MAX)
             st.store.add(Lin.sym(ns).sub(ln))
             newlen = Lin.sym(ns)
@@ -570,6 +574,10 @@ def model(A, fn, frame, b, t, st, name):
             st.store.add(sl.sub(v[2][0]).addc(1))
             return ret(("opt", None, ("tuple", (("int", sl), TOP)), "Option"))
         return ret(("opt", None, None, "Option"))
+    if matches(n, "Iterator::sum", "Iterator::product"):
+        # panics on overflow (with overflow checks): a class-B obligation the caller's rule has to classify
+        A.require(st, fn, b, "iter-sum", "the %s of the iterator's items does not overflow %s" % (n.rsplit("::", 1)[-1], dest_ty), [None], cls="B")
+        return ret(A.default_noentry(st, dest_ty))
     if matches(n, "BinaryHeap::new"):
         return ret(("seq", Lin.const(0), frozenset(), fresh_ident(A)))
     if matches(n, "BinaryHeap::len"):
@@ -689,6 +697,10 @@ def model(A, fn, frame, b, t, st, name):
         return ret(("bool", TOP))
     if n == "fastrand::u64" or n.startswith("fastrand::"):
         r = A.deref(st, A.arg(st, frame, t, 0))
+        # documented: panics if the range is empty
+        A.require(st, fn, b, "empty-range", "the range handed to fastrand is not empty",
+                  [r[2].sub(r[3]).addc(1)] if r[0] == "range" and r[1] == "Range" and r[2] is not None and r[3] is not None else
+                  ([r[2].sub(r[3])] if r[0] == "range" and r[1] == "RangeInclusive" and r[2] is not None and r[3] is not None else [None]))
         if r[0] == "range" and r[2] is not None and r[3] is not None and is_int_ty(dest_ty):
             lo, hi = TYPE_RANGE[dest_ty]
             sy = A.newsym(st, "rnd", lo, hi)
